@@ -286,6 +286,9 @@ func (c *c09PipeConn) SetDeadline(time.Time) error      { return nil }
 func (c *c09PipeConn) SetReadDeadline(time.Time) error  { return nil }
 func (c *c09PipeConn) SetWriteDeadline(time.Time) error { return nil }
 
+// how long the harness waits for an event of the real code before it declares it lost
+const c09PipeWait = 1500 * time.Millisecond
+
 func c09PipeQuery(tag int) []byte {
 	m := new(dnsmessage.Msg)
 	m.SetQuestion(fmt.Sprintf("t%d.test.", tag), dnsmessage.TypeA)
@@ -348,6 +351,8 @@ func (w *c09PipeWorld) slotTok(s *responseSlot) int {
 
 func (w *c09PipeWorld) resStr(r c09PipeRes, conn int) string {
 	switch {
+	case r.err == nil && r.msg == nil:
+		return "stuck"
 	case r.err == nil:
 		tag := c09PipeTag(r.msg)
 		return fmt.Sprintf("msg:%d.%d.%d", r.msg.Id, tag, tag/1000)
@@ -365,7 +370,7 @@ func (w *c09PipeWorld) waitIdle(c int) {
 	select {
 	case <-w.conns[c].idle:
 	case <-w.conns[c].closed:
-	case <-time.After(5 * time.Second):
+	case <-time.After(c09PipeWait):
 	}
 }
 
@@ -400,7 +405,7 @@ func (w *c09PipeWorld) waitEvent() c09Ev {
 	select {
 	case e := <-w.h.event:
 		return e
-	case <-time.After(5 * time.Second):
+	case <-time.After(c09PipeWait):
 		return c09Ev{at: "stuck"}
 	}
 }
@@ -431,7 +436,7 @@ func (w *c09PipeWorld) runCloser(c, k int) {
 				select {
 				case res := <-wt.done:
 					w.finishWaiter(i, res)
-				case <-time.After(5 * time.Second):
+				case <-time.After(c09PipeWait):
 					w.st.Emit(fmt.Sprintf("P take %d", i), "got=stuck")
 				}
 			}
@@ -551,7 +556,7 @@ func TestVerifC09Pipe(t *testing.T) {
 					wt.state = "waiting"
 					st.Emit(fmt.Sprintf("P start %d %d %d %d", i, c, wt.id, wt.slot), "ok")
 					stat.Inc("pipe.start")
-				case <-time.After(5 * time.Second):
+				case <-time.After(c09PipeWait):
 					st.Emit(fmt.Sprintf("P start %d %d 0 0", i, c), "stuck")
 				}
 			case 3, 4, 5: // the upstream sends a frame
@@ -589,7 +594,7 @@ func TestVerifC09Pipe(t *testing.T) {
 				case <-w.conns[c].idle:
 					st.Emit(fmt.Sprintf("P recv %d %d %d", c, id, tag), "held=-")
 					stat.Inc("pipe.recv.dropped")
-				case <-time.After(5 * time.Second):
+				case <-time.After(c09PipeWait):
 					st.Emit(fmt.Sprintf("P recv %d %d %d", c, id, tag), "stuck")
 				}
 			case 6, 7: // the parked readLoop performs slot.set
@@ -648,7 +653,7 @@ func TestVerifC09Pipe(t *testing.T) {
 								got := w.resStr(res, wt.c)
 								st.Emit(fmt.Sprintf("P set %d", slot), "box="+got)
 								w.finishWaiter(i, res)
-							case <-time.After(5 * time.Second):
+							case <-time.After(c09PipeWait):
 								st.Emit(fmt.Sprintf("P set %d", slot), "box=stuck")
 							}
 						}
@@ -679,7 +684,7 @@ func TestVerifC09Pipe(t *testing.T) {
 				var res c09PipeRes
 				select {
 				case res = <-wt.done:
-				case <-time.After(5 * time.Second):
+				case <-time.After(c09PipeWait):
 				}
 				st.Emit(fmt.Sprintf("P leave %d", i), "pc=done:"+w.resStr(res, c))
 				wt.state = "done"
@@ -710,7 +715,7 @@ func TestVerifC09Pipe(t *testing.T) {
 			if wt.state == "waiting" || wt.state == "cancelled" {
 				select {
 				case <-wt.done:
-				case <-time.After(5 * time.Second):
+				case <-time.After(c09PipeWait):
 				}
 			}
 		}
